@@ -220,6 +220,21 @@ def extract():
     if not re.fullmatch(shape, b):
         unrec.append("write_message_streaming")
 
+    # ---- no timer / sleep / retry arm inside the functions the property depends on (none has one today)
+    timer = re.compile(r"\b(sleep|Instant|Duration|elapsed|timeout|retry|retries|backoff|deadline)\b", re.I)
+    for src, names in ((msg, ("body_typed_slice", "body_complex_slice", "body_aligned_typed_slice", "decode_typed_slice",
+                              "decode_complex_slice", "require_body_format", "into_wire_bytes")),
+                       (io, ("write_message_streaming", "write_message_typed_slice", "write_message_complex_slice")),
+                       (srv, ("decode_typed_slice_param", "decode_typed_slice_param_view", "decode_typed_slice_ref_body",
+                              "decode_typed_slice_ref_param"))):
+        for fn in names:
+            try:
+                b = fn_body(src, fn)
+            except ExtractError:
+                continue
+            if timer.search(b):
+                unrec.append(f"{fn}: a timer / sleep / retry arm")
+
     # ---- base offset of the aligned body
     bi = impl_block(msg, r"impl MessageBuilder\s*\{")
     ab = fn_body(bi, "body_aligned_typed_slice")
